@@ -184,6 +184,9 @@ class ABNF:
         if self.opcode == ABNF.OPCODE_PING and not self.fin:
             raise WebSocketProtocolException("Invalid ping frame.")
 
+        if self.opcode in (ABNF.OPCODE_CLOSE, ABNF.OPCODE_PONG) and not self.fin:
+            raise WebSocketProtocolException("Control frames must not be fragmented.")
+
         if self.opcode == ABNF.OPCODE_CLOSE:
             l = len(self.data)
             if not l:
